@@ -28,6 +28,7 @@ EXPLANATION = (
     ' (P10) no container that outlives a batch is mutated on the pipeline path (shared with C06-B4); (P11) the command line passes the rows it read to rebalance unfiltered.'
     " (P12) chunks are not appended to the output under an earlier chunk's layout (shared with C06-B10). (P13) the CSV reader parses under fixed rules, no dialect sniffed from the file. (P14) per-reaction fault handlers are complete (shared with C06-B14)."
     ' (P15) a fresh-index Series computed over a filtered selection is not combined label-wise with the frame it came from (shared pandas label-alignment rule).'
+    ' (P16) the front ends read every record as written: no CSV option that consumes characters of a cell (shared with C02-T8). (P17) the cache key covers the whole rows (shared with C12-K8).'
 )
 ASSUMPTIONS = ["pandas: frame[boolean mask] keeps only the True rows; reset_index/assignment keep the row count"]
 
